@@ -294,19 +294,27 @@ class Engine:
                 STATS.solver_s += time.perf_counter() - t0
                 STATS.discharged += 1
                 return 'unsat', None
-        s.push()
-        try:
-            for a in self.assumptions + sx.const_assumptions() + list(pc if pc is not None else self.pc) + list(extra):
-                s.add(a)
-            s.add(sx.BoolZ(neg))
-            if len(STATS.samples) < 3:
-                STATS.samples.append({'label': label, 'smt2': s.to_smt2()[:1500]})
-            r = timed_check(s, self.timeout_ms)
-            model = s.model() if r == z3.sat else None
-        finally:
-            s.pop()
+        # the deciding query runs in a fresh, non-incremental solver (full tactic pipeline); an
+        # `unknown` is retried with other seeds before it is reported as inconclusive
+        facts = self.assumptions + sx.const_assumptions() + usepc + list(extra)
+        r, model = z3.unknown, None
+        for attempt in range(3):
+            s2 = z3.Solver()
+            s2.set('timeout', self.timeout_ms if attempt == 0 else max(self.timeout_ms // 2, 5000))
+            if attempt:
+                s2.set('random_seed', 17 * attempt)
+                z3.set_param('nlsat.seed', 17 * attempt)
+            for a in facts:
+                s2.add(a)
+            s2.add(sx.BoolZ(neg))
+            if attempt == 0 and len(STATS.samples) < 3:
+                STATS.samples.append({'label': label, 'smt2': s2.to_smt2()[:1500]})
+            r = timed_check(s2, self.timeout_ms)
             STATS.queries += 1
-            STATS.solver_s += time.perf_counter() - t0
+            if r != z3.unknown:
+                model = s2.model() if r == z3.sat else None
+                break
+        STATS.solver_s += time.perf_counter() - t0
         if r == z3.unsat:
             STATS.discharged += 1
             return 'unsat', None
